@@ -13,7 +13,7 @@
    for that case is not proved, the correspondence check runs such worlds).
    Git storage: run7g_console / run7g_files (repository = Store.repo + blob texts; commit ids and message titles are
    inputs taken from git).
-   Still not covered: named journal zones, time-stamp filter leaves under a non-UTC report zone, partial
+   Still not covered: named journal zones, partial
    output of a report that fails after the first write (an invalid pattern is such a case), figures theorems of
    T05 for pattern selectors (T07_selector_rows states rows and figures through C11 / C03 instead). *)
 From Coq Require Import ZArith List Permutation.
@@ -72,25 +72,37 @@ Theorem T07_files_order_irrelevant : forall H c files files' p ls ls',
 Proof. exact files_distribution_nocharts. Qed.
 Print Assumptions T07_files_order_irrelevant.
 
-(* ... in particular any order in which the operating system lists the directory (a failing run fails for every
-   order) *)
-Theorem T07_directory_order_irrelevant : forall H c files files' p,
-  gate_on c = false -> Permutation files files' ->
+(* the same WITH chart files (strict or not), stated on the syntax-level transactions of the files (file_ptxns: what
+   the grammar reads, before the semantic layer): the verdict of the chart look-ups is a conjunction of conditions on
+   the configuration and on every transaction by itself (C12_strict_iff: declared names; Charts_proofs.load_iff), so
+   it cannot depend on the arrangement; the FIRST refusal wins, hence possibly another error, but only accept /
+   reject reaches the output *)
+Theorem T07_files_order_irrelevant_charts : forall H c files files' p ptss ptss',
+  file_ptxns c files = Ok ptss -> file_ptxns c files' = Ok ptss' ->
+  Permutation (concat ptss) (concat ptss') ->
   (forall ls, file_results c files = Ok ls -> distinct_jhdrs (concat ls)) ->
   same_outcome (run7_console H c files p) (run7_console H c files' p)
   /\ same_outcome (run7_files H c files p) (run7_files H c files' p).
-Proof. exact files_order_nocharts. Qed.
+Proof. exact files_distribution_charts. Qed.
+Print Assumptions T07_files_order_irrelevant_charts.
+
+(* ... in particular any order in which the operating system lists the directory, with or without chart files (a
+   failing run fails for every order) *)
+Theorem T07_directory_order_irrelevant : forall H c files files' p,
+  Permutation files files' ->
+  (forall ls, file_results c files = Ok ls -> distinct_jhdrs (concat ls)) ->
+  same_outcome (run7_console H c files p) (run7_console H c files' p)
+  /\ same_outcome (run7_files H c files p) (run7_files H c files' p).
+Proof. exact files_order_charts. Qed.
 Print Assumptions T07_directory_order_irrelevant.
 
-(* with chart files the same holds PROVIDED the chart look-ups give the same verdict for both arrangements: that
-   verdict is order-free by C12_strict_iff (`declared` does not mention an order), but this is not composed here *)
-Theorem T07_files_order_irrelevant_charts_partial : forall H c files files' p ls ls',
-  file_results c files = Ok ls -> file_results c files' = Ok ls' ->
-  Permutation (concat ls) (concat ls') -> distinct_jhdrs (concat ls) ->
-  (forall price, chart_gate c price files = chart_gate c price files') ->
-  run7_console H c files p = run7_console H c files' p /\ run7_files H c files p = run7_files H c files' p.
-Proof. exact files_distribution. Qed.
-Print Assumptions T07_files_order_irrelevant_charts_partial.
+(* the verdict of the chart look-ups for two arrangements of the same transactions *)
+Theorem T07_chart_verdict_order_free : forall c price files files' ptss ptss',
+  file_ptxns c files = Ok ptss -> file_ptxns c files' = Ok ptss' ->
+  Permutation (concat ptss) (concat ptss') ->
+  chart_gate c price files = Ok tt -> chart_gate c price files' = Ok tt.
+Proof. exact gate_verdict_perm. Qed.
+Print Assumptions T07_chart_verdict_order_free.
 
 (* one selected file that the grammar or the semantic layer refuses: no output at all, in either mode, whatever
    the other files hold (C15_one_error_rejects_all) *)
